@@ -610,6 +610,7 @@ package xpath
 //@   loop * invariant[cursor@C13] cur(t) == old(cur(t)) && pos(cur(t)) == old(pos(cur(t)))
 //@ func (*ancestorQuery).Select$1
 //@   props C15 C01
+//@   mode int
 //@   theory nav for C01
 //@   uses tree-depth tree-kinds tree-up
 //@   captures a != nil && node != nil
